@@ -195,7 +195,7 @@ def check(pid, tier, verif_seed, budget_s=None, nworkers=None, max_runs=None):
     ndet = 24 if tier == "quick" else 200
     ndet = int(os.environ.get("VERIF_NDET", ndet))
     est = getattr(prop, "EST_RUN_S", 0.05)
-    cap = max_runs or int(os.environ.get("VERIF_MAX_RUNS", "0") or 0) or int(max(200, min(4_000_000, budget_s * nworkers / est * 3)))
+    cap = max_runs or int(os.environ.get("VERIF_MAX_RUNS", "0") or 0) or int(max(200, min(4_000_000, budget_s * nworkers / est * 6)))
     for i in range(cap):
         jobs.append((("run", i), _gen_job(prop, verif_seed, tier, i)))
     deadline = t_start + budget_s
